@@ -39,4 +39,9 @@ CHECKS = {
         "note": "Float vary_rounds enters as the integer the interpreter computes (atom); log2-cost + float vary is explored on the real code only. salt_size/ident/truncate_error customisation is explored by the search oracle and the attribute snapshots, not modelled in Lean yet. Open finding: chained using() can invert the window (the pinned suite requires that behaviour).",
         "design_ref": "DESIGN.md §5 C09",
     },
+    "C11": {
+        "text": "Theorems: passlib's table-driven DES (tables/masks reflected from the running module each run) equals the FIPS 46-3 construction with the crypt(3) salt swap and multi-round chaining for EVERY key, block, 24-bit salt and round count (des_model_eq_spec), via kernel-checked pinning of all 512 SPE entries, OR-linearity of every IE3264/CF6464/PCXROT row and agreement on the 64 unit vectors; exactly the out-of-range arguments are refused; 7->8 byte key expansion and shrink are inverse; parity bits are ignored; compile_hmac = RFC 2104 for an abstract digest and every key length; pbkdf1 = RFC 8018 PBKDF1. Correspondence: compiled model and FIPS transcription vs passlib.crypto.des (random, unit-vector, all 12-bit salts), vs OpenSSL's legacy DES-ECB, Lean digest transcriptions vs hashlib and passlib's md4, HMAC/PBKDF1/PBKDF2 vs passlib's entry points.",
+        "note": "Model/Des.lean is a hand transcription of des.py tied by correspondence; Spec/* are transcriptions of the standards. MD4, scrypt and the Blowfish/bcrypt core are being added as separate theorem files (C11Md4/C11Scrypt/C11Blowfish); until then they are covered by correspondence/search only. saslprep is explored on the real code only.",
+        "design_ref": "DESIGN.md §5 C11",
+    },
 }
